@@ -102,10 +102,12 @@ class Sides:
         return [x for part in parts for x in part]
 
     # -- implementation -------------------------------------------------------------------------------------
-    def occa(self, texts):
+    def occa(self, texts, chunk=1500):
         wd = os.path.join(self.c.scratch, "occa-run%d" % self.nrun)
         items = [t.encode().hex() for t in texts]
-        res, complete = batch.run_items([self.exe], items, wd, self.env, chunk=1500, per_item_timeout=1.0)
+        # the driver process needs seconds to start on a busy machine (ASan): never less than 180 s per process
+        pit = max(5.0, 180.0 / max(1, min(chunk, len(items))))
+        res, complete = batch.run_items([self.exe], items, wd, self.env, chunk=chunk, per_item_timeout=pit)
         if not complete or len(res) != len(items):
             self.c.harness_error("OCCA driver run incomplete")
         out = []
@@ -142,6 +144,13 @@ class Sides:
             self.c.harness_error("reference side: %s" % e)
         keep = [i for i in range(len(todo)) if g[i][0] is not None]
         o = self.occa([texts[i] for i in keep])
+        # a timeout is only a hang if the program also times out when it is run again in a small batch
+        again = [j for j, d in enumerate(o) if d["crash"] == "timeout"]
+        if again:
+            self.nrun += 1
+            o2 = self.occa([texts[keep[j]] for j in again], chunk=4)
+            for j, d in zip(again, o2):
+                o[j] = d
         for i in range(len(todo)):
             if g[i][0] is None:
                 reason = re.sub(r"[\"'`][^\"'`]*[\"'`]", "X", g[i][1])
@@ -176,8 +185,9 @@ class Sides:
 
 
 def classify(c, S, progs, family):
-    """Report the minimal failing programs of a family.  Returns statistics."""
-    S.evaluate(progs)
+    """progs = (number generated, list of evaluated programs).  Report the minimal failing programs of a family.
+    Returns (statistics, programs evaluated)."""
+    total, progs = progs
     failing = [p for p in progs if S.cache[p.text()]["fail"]]
     reported, seen_texts = {}, set()
     frontier = failing
@@ -208,9 +218,10 @@ def classify(c, S, progs, family):
     for t, p in reported.items():
         v = S.cache[t]
         clause, detail = v["fail"]
-        sig = "%s:%s" % (clause, p.sig())
+        sig = "%s:%s:%s" % (p.cls(), clause, p.sig())
         c.violation(sig, "program:\n%s\n%s" % (t, detail), {"family": family, "text": t, "guard": p.guard})
-    return {"programs": len(progs), "failing": len(failing), "minimal_failing": len(reported), "non_minimal_failing_examined": nonminimal}
+    return {"programs_generated": total, "programs": len(progs), "programs_not_run_budget": total - len(progs), "failing": len(failing),
+            "minimal_failing": len(reported), "non_minimal_failing_examined": nonminimal}, progs
 
 
 def replay(c, S, r):
@@ -251,17 +262,34 @@ def main():
     if c.args.replay:
         replay(c, S, load_replay(c.args.replay))
     stats = {}
+    import time
+    deadline = c.t0 + c.budget(1800, 3600)   # safety net; an idle 16-core machine needs ~1.5 min (quick) / ~10 min (thorough)
     fams = [("skeleton", gen.skeletons), ("ifexpr", gen.ifexprs), ("macro", gen.macros)]
+    only = os.environ.get("C13_DEBUG_FAMILY")      # development aid only
+    if only:
+        fams = [f for f in fams if f[0] == only]
     allp = {}
     undefined_in_c = 0
+    generated = {}
     for name, fn in fams:
         progs = fn(c.tier)
         if name == "ifexpr":
             n0 = len(progs)
             progs = [p for p in progs if gen.ifexpr_reference(p) is not None]
             undefined_in_c = n0 - len(progs)
+        generated[name] = progs
+    # evaluate in stages, round robin over the families (generation order = simplest first); the wall-clock budget is
+    # checked between stages, what was not reached is reported (exhaustive=false), never judged
+    STAGE = 8000
+    pos = {name: 0 for name in generated}
+    while any(pos[n] < len(generated[n]) for n in generated) and time.time() <= deadline:
+        for name in generated:
+            if pos[name] < len(generated[name]) and time.time() <= deadline:
+                S.evaluate(generated[name][pos[name]:pos[name] + STAGE])
+                pos[name] = min(len(generated[name]), pos[name] + STAGE)
+    for name in generated:
+        stats[name], progs = classify(c, S, (len(generated[name]), generated[name][:pos[name]]), name)
         allp[name] = progs
-        stats[name] = classify(c, S, progs, name)
         if name == "ifexpr":
             # cross-check of the filter: gcc and the reference evaluator must agree on every kept program
             for p in progs:
@@ -293,10 +321,15 @@ def main():
                 elif_after_taken += 1
             if name == "macro" and not v["fail"] and gen.norm_lines(v["gcc_lines"]) != gen.norm_lines([p.line] * len(v["gcc_lines"])):
                 expanded += 1
+    if only:
+        for v in c.violations:
+            print(v["sig"], "::", v["detail"].replace("\n", " | ")[:400])
+        print(stats, kept, dropped)
+        sys.exit(3)
     c.vacuity(kept >= 1000, "programs accepted by gcc: %d" % kept)
-    c.vacuity({"t", "f"} <= both_branches, "#if expressions: both the true and the false branch are kept by the reference")
-    c.vacuity(elif_after_taken > 0, "skeletons with '#elif (1/0)' after a taken group accepted by gcc: %d" % elif_after_taken)
-    c.vacuity(expanded >= 100, "macro programs whose reference output differs from the input line (a macro was expanded): %d" % expanded)
+    c.vacuity(not allp.get("ifexpr") or {"t", "f"} <= both_branches, "#if expressions: both the true and the false branch are kept by the reference")
+    c.vacuity(not allp.get("skeleton") or elif_after_taken > 0, "skeletons with '#elif (1/0)' after a taken group accepted by gcc: %d" % elif_after_taken)
+    c.vacuity(not allp.get("macro") or expanded >= 100, "macro programs whose reference output differs from the input line (a macro was expanded): %d" % expanded)
     c.vacuity(len(outcomes) >= 50, "distinct reference outputs: %d" % len(outcomes))
     c.set_exploration(
         evaluations=kept,
@@ -304,9 +337,9 @@ def main():
         rule="bounded-exhaustive generation of three program families (conditional skeletons <= %d directive lines, depth <= 2; #if expressions "
              "of depth <= 2; macro programs with <= %d definitions + one invocation line, optional #undef/redefinition), every program run on both sides" % (
                  5 if c.tier == "quick" else 6, 2 if c.tier == "quick" else 3),
-        samples=[allp["skeleton"][0].text(), allp["skeleton"][len(allp["skeleton"]) // 2].text(), allp["ifexpr"][len(allp["ifexpr"]) // 2].text(),
-                 allp["macro"][len(allp["macro"]) // 3].text(), allp["macro"][-1].text()],
-        exhaustive=True,
+        samples=[pl[i].text() for pl in allp.values() if pl for i in (0, len(pl) // 2, len(pl) - 1)],
+        exhaustive=all(st["programs_not_run_budget"] == 0 for st in stats.values()),
+        budget_hit=any(st["programs_not_run_budget"] > 0 for st in stats.values()),
         families=stats,
         programs_generated=sum(len(p) for p in allp.values()),
         programs_dropped_because_gcc_errors=dropped,
